@@ -36,7 +36,7 @@ ok=0; [ $T = pass ] && [ $DW = fail ] && [ $DC = pass ] && ok=1
 RES=""
 for CK in $CHECKS; do
   OUT=$(VERIF_OUT_DIR="$D/out" VERIF_REPO="$D/repo" /verif/scripts/check.sh "$CK" quick 2>&1 | grep -E "^(VIOLATION|KNOWN|INCONCL)|sig=" | cut -c1-200)
-  if echo "$OUT" | grep -q "^VIOLATION property=$CK"; then RES="$RES $CK:caught"; else RES="$RES $CK:MISSED"; fi
+  if echo "$OUT" | grep -q "^VIOLATION property=$CK"; then RES="$RES $CK:caught"; elif echo "$OUT" | grep -q "^INCONCLUSIVE"; then RES="$RES $CK:INCONCLUSIVE"; else RES="$RES $CK:MISSED"; fi
   echo "$OUT" | grep "sig=" | head -4
 done
 echo "RESULT $NAME confirmed=$ok$RES"
